@@ -85,7 +85,7 @@ PLAN = {
                  "and the trait contract `source() holds text(), rope() is a well-formed rope denoting text(), buffer() holds raw(), size() == |raw()|` on the children (this IS property C07 for each child), the real ConcatSource::source, "
                  "::rope, ::buffer and ::size return exactly the concatenation of the children's text() / raw() in order, for every number of children: the single-child delegation arm, the `map(..).collect()` String path, the Rope::new + append loop "
                  "(Rope contracts as proved by rope_core), the `collect::<Vec<_>>().concat()` path and the `sum()` path all agree - so rope() renders to source(), size() == buffer().len(), and when the children's raw() == text() then buffer() is the bytes of source(). "
-                 "ReplaceSource::rope renders to ReplaceSource::source and size() is its length (unit replace_splice, as for C05); Rope::to_string / to_bytes render exactly the denoted text (unit rope_core). "
+                 "ReplaceSource::rope renders to ReplaceSource::source, size() is its length and buffer() holds exactly its bytes (unit replace_splice, as for C05; buffer since session 4); Rope::to_string / to_bytes render exactly the denoted text (unit rope_core). "
                  "Base cases: the four views of OriginalSource and RawStringSource, cut verbatim out of their `impl Source` blocks and re-assembled as impls of the reduced trait, are checked by Verus against the trait contract itself (text() = raw() = the held string's bytes), so for these leaves the contract is proved, not assumed. "
                  "Not decided: to_writer (dyn Write; searched by the twin, including writers that fail after k bytes), the views of RawSource / RawBufferSource (lossy decoding through OnceLock + String::from_utf8_lossy) and SourceMapSource (same four one-liners as OriginalSource; its struct drags in SourceMap), "
                  "CachedSource, ConcatSource::new / add (flat_map + downcast_ref flattening).",
@@ -97,7 +97,7 @@ PLAN = {
         ] + TB_ROPE,
         "assumptions": ["every child satisfies the trait contract (C07 for the child): proved here for ConcatSource, ReplaceSource, OriginalSource and RawStringSource children, assumed for RawSource, RawBufferSource, SourceMapSource, CachedSource", "total text / buffer length fits usize (requires of rope() and size())",
                         "ReplaceSource: the domain preconditions of C05 (positions on char boundaries or beyond the end, text < 4 GiB)"],
-        "not_covered": ["to_writer (dyn Write): only searched by the twin, with failing writers", "leaf views of RawSource / RawBufferSource / SourceMapSource, CachedSource", "ConcatSource::new / add (flattening of nested ConcatSources)", "ReplaceSource::buffer / to_writer"],
+        "not_covered": ["to_writer (dyn Write): only searched by the twin, with failing writers", "leaf views of RawSource / RawBufferSource / SourceMapSource, CachedSource", "ConcatSource::new / add (flattening of nested ConcatSources)", "ReplaceSource::to_writer"],
         "design_ref": "DESIGN.md §4/C07",
     },
     "C11": {
@@ -156,7 +156,7 @@ PLAN = {
                                     "<Cow<str> as From<String>>::from (holds that string)", "external_body: sorted_replacement with the stable-order contract",
                                     "rules D2 D3 D5 D6 F1 L1 G1", "replace_splice sees Rope through the five method contracts (rule D6); unit rope_core proves those contracts on the real code"] + TB_ROPE,
         "assumptions": ["inner.source() is a function of the inner object (trait-level spec view `text()`)", "inner text < 4 GiB", "sum of content lengths fits usize (capacity hint dropped by D3)"],
-        "not_covered": ["buffer()/to_writer() (Cow pattern match, dyn Write)", "map()/stream_chunks of ReplaceSource", "n > 3 replacements for the itertools sort (bounded Kani stage)"],
+        "not_covered": ["to_writer() (dyn Write)", "map()/stream_chunks of ReplaceSource", "n > 3 replacements for the itertools sort (bounded Kani stage)"],
         "design_ref": "DESIGN.md §4/C05",
     },
     "C16": {
